@@ -605,7 +605,8 @@ Section IterProofs.
 Variable o : opts.
 Variable nested : scanner -> res (scanner * option Stmt).
 Hypothesis nested_mono : forall b b' r, pos b = 0 -> delim b <> [] -> nested b = Ok (b', r) ->
-  total b <= total b' /\ pos b' = 0 /\ delim b' <> [].
+  total b <= total b' /\ pos b' = 0 /\ delim b' <> [] /\
+  (forall st, r = Some st -> total b + zlen (Text st) <= total b').
 
 Lemma nfail_ok s p k r : nfail s p k = Ok r -> fst r = s.
 Proof. unfold nfail. intros H. inv_bind H. inversion H. reflexivity. Qed.
@@ -615,7 +616,7 @@ Lemma atomic_loop_adv f : forall s body r, 0 <= total body -> pos body = 0 -> de
 Proof.
   induction f as [|f IH]; intros s body r Hb Hp Hd H; simpl in H; [discriminate|].
   destruct (nested body) as [[body' [st|]]|e| |] eqn:En; try discriminate.
-  - destruct (nested_mono _ _ _ Hp Hd En) as (M1 & M2 & M3). destruct (re_end (Text st)).
+  - destruct (nested_mono _ _ _ Hp Hd En) as (M1 & M2 & M3 & M4). destruct (re_end (Text st)).
     + inversion H; subst; simpl. apply adv_addPos. lia.
     + eapply IH; [| | |exact H]; auto. lia.
   - apply nfail_ok in H. rewrite H. apply adv_refl.
@@ -626,7 +627,7 @@ Lemma begin_loop_adv f : forall s group r, 0 <= total group -> pos group = 0 -> 
 Proof.
   induction f as [|f IH]; intros s group r Hb Hp Hd H; simpl in H; [discriminate|].
   destruct (nested group) as [[group' [st|]]|e| |] eqn:En; try discriminate.
-  - destruct (nested_mono _ _ _ Hp Hd En) as (M1 & M2 & M3). destruct (re_end (Text st)).
+  - destruct (nested_mono _ _ _ Hp Hd En) as (M1 & M2 & M3 & M4). destruct (re_end (Text st)).
     + destruct (_ || _).
       * inversion H; subst; simpl. apply adv_addPos. lia.
       * eapply IH; [| | |exact H]; auto. lia.
@@ -658,6 +659,33 @@ Proof.
   - inversion H; subst; exact A1.
 Qed.
 
+Lemma firstn_zlen_le (l : bytes) n : zlen (firstn n l) <= zlen l.
+Proof. unfold zlen. rewrite firstn_length. lia. Qed.
+
+Lemma trycatch_loop_adv f : forall s body r, 0 <= total body -> pos body = 0 -> delim body <> [] ->
+  trycatch_loop nested f s body = Ok r -> adv s (fst r).
+Proof.
+  induction f as [|f IH]; intros s body r Hb Hp Hd H; simpl in H; [discriminate|].
+  destruct (nested body) as [[body' [st|]]|e| |] eqn:En; try discriminate.
+  - destruct (nested_mono _ _ _ Hp Hd En) as (M1 & M2 & M3 & M4). specialize (M4 _ eq_refl).
+    destruct (re_end_catch (Text st)) as [n|].
+    + pose proof (firstn_zlen_le (Text st) n). pose proof (zlen_nonneg (firstn n (Text st))).
+      inversion H; subst; simpl. destruct (has_suffix _ _); unfold adv, addPos; simpl; repeat split; lia.
+    + eapply IH; [| | |exact H]; auto. lia.
+  - apply nfail_ok in H. rewrite H. apply adv_refl.
+  - apply nfail_ok in H. rewrite H. apply adv_refl.
+Qed.
+Lemma skipBeginTryCatch_adv f s r : skipBeginTryCatch nested f s = Ok r -> adv s (fst r).
+Proof.
+  unfold skipBeginTryCatch. intros H. inv_bind H.
+  destruct (re_begin_try a) as [n|] eqn:E; [|apply nfail_ok in H; rewrite H; apply adv_refl].
+  apply re_begin_word_pos in E. inv_bind H.
+  assert (adv s (addPos s (Z.of_nat n - 1))) as A1 by (apply adv_addPos; lia).
+  destruct (init (new_scanner false) a0) as [body|e| |] eqn:Ei; try discriminate.
+  - destruct (init_total _ _ _ Ei) as (T1 & T2 & T3). eapply adv_trans; [exact A1|]. eapply trycatch_loop_adv; [| | |exact H]; auto.
+  - inversion H; subst; exact A1.
+Qed.
+
 Lemma after_block_spec r depth opos step s0 :
   after_block r depth opos = Ok step -> (forall x, r = Ok x -> adv s0 (fst x)) ->
   match step with
@@ -686,9 +714,9 @@ Section IterSpec.
 Variable o : opts.
 Variable nested : scanner -> res (scanner * option Stmt).
 Hypothesis nested_mono : forall b b' r, pos b = 0 -> delim b <> [] -> nested b = Ok (b', r) ->
-  total b <= total b' /\ pos b' = 0 /\ delim b' <> [].
+  total b <= total b' /\ pos b' = 0 /\ delim b' <> [] /\
+  (forall st, r = Some st -> total b + zlen (Text st) <= total b').
 Hypothesis noGo : GoCommand o = false.
-Hypothesis noTry : MatchBeginTryCatch o = false.
 
 (** a leading gap segment was cut off the input (continuation-passing form: any gap that
     follows extends to a gap from the old state). *)
@@ -868,7 +896,13 @@ Proof.
       [|intros x Hx; eapply skipBeginAtomic_adv; eauto].
     destruct step as [s1 d1 o1|s1 text|s1]; [left; apply Hprog; exact H| |contradiction].
     destruct H as [A1 ->]. split; [eapply adv_trans; eauto|split; [destruct A1 as (_&_&_&?); lia|left; reflexivity]]. }
-  clear Ha. rewrite noTry, andb_false_r in H. simpl in H.
+  clear Ha.
+  inv_bind H. rename a into isTry. destruct isTry.
+  { apply after_block_spec with (s0 := s) in H;
+      [|intros x Hx; eapply skipBeginTryCatch_adv; eauto].
+    destruct step as [s1 d1 o1|s1 text|s1]; [left; apply Hprog; exact H| |contradiction].
+    destruct H as [A1 ->]. split; [eapply adv_trans; eauto|split; [destruct A1 as (_&_&_&?); lia|left; reflexivity]]. }
+  clear Ha.
   inv_bind H. rename a into isBegin. destruct isBegin.
   { apply after_block_spec with (s0 := s) in H;
       [|intros x Hx; eapply skipBegin_adv; eauto].
@@ -908,9 +942,9 @@ Section LoopSpec.
 Variable o : opts.
 Variable nested : scanner -> res (scanner * option Stmt).
 Hypothesis nested_mono : forall b b' r, pos b = 0 -> delim b <> [] -> nested b = Ok (b', r) ->
-  total b <= total b' /\ pos b' = 0 /\ delim b' <> [].
+  total b <= total b' /\ pos b' = 0 /\ delim b' <> [] /\
+  (forall st, r = Some st -> total b + zlen (Text st) <= total b').
 Hypothesis noGo : GoCommand o = false.
-Hypothesis noTry : MatchBeginTryCatch o = false.
 Variables (I0 D0 : bytes) (T0 : Z).
 
 Definition LI (s : scanner) : Prop :=
@@ -943,7 +977,7 @@ Lemma stmt_loop_spec lf : forall s d op s' r,
 Proof.
   induction lf as [|lf IH]; intros s d op s' r H L; simpl in H; [discriminate|].
   inv_bind H. destruct L as (L1 & L2 & L3 & L4 & L5).
-  pose proof (stmt_iter_spec o nested nested_mono noGo noTry _ _ _ _ _ Ha L1 L2) as Hit.
+  pose proof (stmt_iter_spec o nested nested_mono noGo _ _ _ _ _ Ha L1 L2) as Hit.
   assert (LI s) as L by (unfold LI; auto).
   destruct a as [s1 d1 o1|s1 text|s1].
   - eapply IH; [exact H|]. destruct Hit as [[A _]|[S _]]; [eapply LI_adv|eapply LI_strip]; eauto.
@@ -971,24 +1005,26 @@ End LoopSpec.
 Section StmtSpec.
 Variable o : opts.
 Hypothesis noGo : GoCommand o = false.
-Hypothesis noTry : MatchBeginTryCatch o = false.
 
 Lemma StmtResult_mono I0 D0 T0 s' r b :
   StmtResult o I0 D0 T0 s' r -> I0 = input b -> T0 = total b + zlen (input b) ->
-  total b <= total s' /\ pos s' = 0 /\ delim s' <> [].
+  total b <= total s' /\ pos s' = 0 /\ delim s' <> [] /\
+  (forall st, r = Some st -> total b + zlen (Text st) <= total s').
 Proof.
-  intros (R1 & R2 & R3 & R4) -> ->. repeat split; auto. destruct r as [st|].
-  - destruct R4 as (g & raw & Hin & _). rewrite Hin, !zlen_app in R3.
-    pose proof (zlen_nonneg g). pose proof (zlen_nonneg raw). lia.
+  intros (R1 & R2 & R3 & R4) -> ->. destruct r as [st|].
+  - destruct R4 as (g & raw & Hin & _ & (sp & dl & Hraw & _) & _). rewrite Hin, !zlen_app in R3.
+    rewrite Hraw, !zlen_app in R3.
+    pose proof (zlen_nonneg g). pose proof (zlen_nonneg sp). pose proof (zlen_nonneg dl). pose proof (zlen_nonneg (Text st)).
+    repeat split; auto; try lia. intros st0 E. injection E as <-. lia.
   - destruct R4 as [Hin _]. rewrite Hin in R3. change (zlen []) with 0 in R3.
-    pose proof (zlen_nonneg (input b)). lia.
+    pose proof (zlen_nonneg (input b)). repeat split; auto; try lia. discriminate.
 Qed.
 
 Lemma stmt_spec f : forall s s' r, stmt o f s = Ok (s', r) -> pos s = 0 -> delim s <> [] ->
   StmtResult o (input s) (delim s) (total s + zlen (input s)) s' r.
 Proof.
   induction f as [|f IH]; intros s s' r H Hp Hd; simpl in H; [discriminate|].
-  eapply (stmt_loop_spec o (stmt o f)); [|exact noGo|exact noTry|exact H|].
+  eapply (stmt_loop_spec o (stmt o f)); [|exact noGo|exact H|].
   - intros b b' r0 Hb1 Hb2 Hb3. eapply StmtResult_mono; [eapply IH; eauto|reflexivity|reflexivity].
   - destruct (trim_left_decomp (input s)) as (sp & Hsp & Hsp2 & Hsp3).
     unfold LI, skipSpaces; simpl. repeat split; auto; try lia.
@@ -1263,13 +1299,13 @@ Variable o : opts.
 Variable nested : scanner -> res (scanner * option Stmt).
 Variable fn : nat.
 Hypothesis nested_mono : forall b b' r, pos b = 0 -> delim b <> [] -> nested b = Ok (b', r) ->
-  total b <= total b' /\ pos b' = 0 /\ delim b' <> [].
+  total b <= total b' /\ pos b' = 0 /\ delim b' <> [] /\
+  (forall st, r = Some st -> total b + zlen (Text st) <= total b').
 Hypothesis nested_prog : forall b b' st, pos b = 0 -> delim b <> [] -> nested b = Ok (b', Some st) ->
   zlen (input b') < zlen (input b).
 Hypothesis nested_nf : forall b, pos b = 0 -> delim b <> [] -> zlen (input b) + 2 <= Z.of_nat fn ->
   nested b <> OutOfFuel.
 Hypothesis noGo : GoCommand o = false.
-Hypothesis noTry : MatchBeginTryCatch o = false.
 
 Lemma atomic_loop_nf f : forall s body, pos body = 0 -> delim body <> [] ->
   zlen (input body) < Z.of_nat f -> zlen (input body) + 2 <= Z.of_nat fn ->
@@ -1277,7 +1313,7 @@ Lemma atomic_loop_nf f : forall s body, pos body = 0 -> delim body <> [] ->
 Proof.
   induction f as [|f IH]; intros s body Hp Hd Hl Hn H; simpl in H; [pose proof (zlen_nonneg (input body)); lia|].
   destruct (nested body) as [[body' [st|]]|e| |] eqn:En; try discriminate.
-  - destruct (nested_mono _ _ _ Hp Hd En) as (_ & M2 & M3). pose proof (nested_prog _ _ _ Hp Hd En).
+  - destruct (nested_mono _ _ _ Hp Hd En) as (_ & M2 & M3 & _). pose proof (nested_prog _ _ _ Hp Hd En).
     destruct (re_end (Text st)); [discriminate|]. eapply IH; [| | | |exact H]; auto; lia.
   - apply nfail_nf in H; auto.
   - apply nfail_nf in H; auto.
@@ -1289,7 +1325,7 @@ Lemma begin_loop_nf f : forall s group, pos group = 0 -> delim group <> [] ->
 Proof.
   induction f as [|f IH]; intros s body Hp Hd Hl Hn H; simpl in H; [pose proof (zlen_nonneg (input body)); lia|].
   destruct (nested body) as [[body' [st|]]|e| |] eqn:En; try discriminate.
-  - destruct (nested_mono _ _ _ Hp Hd En) as (_ & M2 & M3). pose proof (nested_prog _ _ _ Hp Hd En).
+  - destruct (nested_mono _ _ _ Hp Hd En) as (_ & M2 & M3 & _). pose proof (nested_prog _ _ _ Hp Hd En).
     destruct (re_end (Text st)).
     + destruct (_ || _); [discriminate|]. eapply IH; [| | | |exact H]; auto; lia.
     + destruct (_ && _); [discriminate|]. eapply IH; [| | | |exact H]; auto; lia.
@@ -1298,6 +1334,31 @@ Proof.
   - eapply nested_nf; eauto.
 Qed.
 
+Lemma trycatch_loop_nf f : forall s body, pos body = 0 -> delim body <> [] ->
+  zlen (input body) < Z.of_nat f -> zlen (input body) + 2 <= Z.of_nat fn ->
+  trycatch_loop nested f s body <> OutOfFuel.
+Proof.
+  induction f as [|f IH]; intros s body Hp Hd Hl Hn H; simpl in H; [pose proof (zlen_nonneg (input body)); lia|].
+  destruct (nested body) as [[body' [st|]]|e| |] eqn:En; try discriminate.
+  - destruct (nested_mono _ _ _ Hp Hd En) as (_ & M2 & M3 & _). pose proof (nested_prog _ _ _ Hp Hd En).
+    destruct (re_end_catch (Text st)); [discriminate|]. eapply IH; [| | | |exact H]; auto; lia.
+  - apply nfail_nf in H; auto.
+  - apply nfail_nf in H; auto.
+  - eapply nested_nf; eauto.
+Qed.
+Lemma skipBeginTryCatch_nf f s : 1 <= pos s -> rem s < Z.of_nat f -> rem s + 2 <= Z.of_nat fn ->
+  skipBeginTryCatch nested f s <> OutOfFuel.
+Proof.
+  unfold skipBeginTryCatch. intros Hp Hr Hn H. nf_bind H; [apply slice_from_not_fuel in H; auto|].
+  destruct (re_begin_try a) as [n|] eqn:E; [|apply nfail_nf in H; auto].
+  apply re_begin_word_pos in E. nf_bind H; [apply slice_from_not_fuel in H; auto|].
+  apply slice_from_ok in Ha0 as [Hb ->]. simpl in Hb.
+  destruct (init (new_scanner false) _) as [body|e| |] eqn:Ei; try discriminate.
+  - destruct (init_total _ _ _ Ei) as (_ & T2 & T3). pose proof (init_input_len _ _ _ Ei) as Hl.
+    rewrite zlen_skipn in Hl by (simpl; lia). simpl in Hl. unfold rem in *.
+    eapply trycatch_loop_nf; [| | | |exact H]; auto; lia.
+  - apply init_nf in Ei; auto.
+Qed.
 Lemma skipBeginAtomic_nf f s : 1 <= pos s -> rem s < Z.of_nat f -> rem s + 2 <= Z.of_nat fn ->
   skipBeginAtomic nested f s <> OutOfFuel.
 Proof.
@@ -1373,7 +1434,10 @@ Proof.
   clear Ha. nf_bind H.
   { destruct (_ && _); [|discriminate]. nf_bind H; [apply slice_from_not_fuel in H; auto|discriminate]. }
   destruct a1. { apply after_block_nf in H. eapply skipBeginAtomic_nf; [| | |exact H]; lia. }
-  clear Ha. rewrite noTry, andb_false_r in H. simpl in H.
+  clear Ha. nf_bind H.
+  { destruct (_ && _); [|discriminate]. nf_bind H; [apply slice_from_not_fuel in H; auto|discriminate]. }
+  destruct a1. { apply after_block_nf in H. eapply skipBeginTryCatch_nf; [| | |exact H]; lia. }
+  clear Ha.
   nf_bind H.
   { destruct (_ && _); [|discriminate]. destruct (pos s =? 1).
     - nf_bind H; [apply slice_from_not_fuel in H; auto|discriminate].
@@ -1395,7 +1459,7 @@ Lemma stmt_loop_nf lf : forall s d op,
 Proof.
   induction lf as [|lf IH]; intros s d op Hns Hd Hlf Hr Hn H; simpl in H; [lia|].
   nf_bind H; [eapply stmt_iter_nf; [| |exact H]; lia|].
-  pose proof (stmt_iter_spec o nested nested_mono noGo noTry _ _ _ _ _ Ha Hns Hd) as Hit.
+  pose proof (stmt_iter_spec o nested nested_mono noGo _ _ _ _ _ Ha Hns Hd) as Hit.
   destruct a as [s1 d1 o1|s1 text|s1].
   - pose proof (stmt_iter_continue_rem _ _ _ _ _ _ _ Ha) as Hr1.
     destruct Hit as [[A Hlt]|[(S1 & S2 & S3 & S4 & S5) [Hp0 Hlen]]].
@@ -1409,19 +1473,19 @@ End NestedNF.
 Section StmtNF.
 Variable o : opts.
 Hypothesis noGo : GoCommand o = false.
-Hypothesis noTry : MatchBeginTryCatch o = false.
 
 Lemma stmt_prog f b b' st : pos b = 0 -> delim b <> [] -> stmt o f b = Ok (b', Some st) ->
   zlen (input b') < zlen (input b).
 Proof.
-  intros Hp Hd H. destruct (stmt_spec o noGo noTry _ _ _ _ H Hp Hd) as (_ & _ & _ & g & raw & Hin & _ & _ & Hne & _).
+  intros Hp Hd H. destruct (stmt_spec o noGo _ _ _ _ H Hp Hd) as (_ & _ & _ & g & raw & Hin & _ & _ & Hne & _).
   rewrite Hin, !zlen_app. pose proof (zlen_nonneg g).
   destruct raw; [congruence|]. rewrite zlen_cons. pose proof (zlen_nonneg raw). lia.
 Qed.
 Lemma stmt_mono f b b' r : pos b = 0 -> delim b <> [] -> stmt o f b = Ok (b', r) ->
-  total b <= total b' /\ pos b' = 0 /\ delim b' <> [].
+  total b <= total b' /\ pos b' = 0 /\ delim b' <> [] /\
+  (forall st, r = Some st -> total b + zlen (Text st) <= total b').
 Proof.
-  intros Hp Hd H. eapply (StmtResult_mono o noGo noTry); [eapply (stmt_spec o noGo noTry); eauto|reflexivity|reflexivity].
+  intros Hp Hd H. eapply (StmtResult_mono o noGo); [eapply (stmt_spec o noGo); eauto|reflexivity|reflexivity].
 Qed.
 
 Lemma stmt_nf f : forall s, pos s = 0 -> delim s <> [] -> zlen (input s) + 2 <= Z.of_nat f ->
@@ -1433,7 +1497,7 @@ Proof.
   assert (zlen (trim_left_space (input s)) <= zlen (input s)) as Hle.
   { rewrite Hsp at 2. rewrite zlen_app. pose proof (zlen_nonneg sp). lia. }
   pose proof (zlen_nonneg (trim_left_space (input s))) as Hnn.
-  eapply (stmt_loop_nf o (stmt o f) f); [| | |exact noGo|exact noTry| | | | | |exact H].
+  eapply (stmt_loop_nf o (stmt o f) f); [| | |exact noGo| | | | | |exact H].
   - intros b b' r. apply stmt_mono.
   - intros b b' st. apply stmt_prog.
   - intros b Hb1 Hb2 Hb3. apply IH; auto.
@@ -1450,7 +1514,7 @@ Proof.
   induction f as [|f IH]; intros s acc Hp Hd Hl H; [pose proof (zlen_nonneg (input s)); lia|].
   cbn [scan_loop] in H. nf_bind H; [eapply stmt_nf; [| | |exact H]; auto|].
   destruct a as [s1 [st|]]; [|discriminate].
-  destruct (stmt_mono _ _ _ _ Hp Hd Ha) as (_ & M2 & M3). pose proof (stmt_prog _ _ _ _ Hp Hd Ha).
+  destruct (stmt_mono _ _ _ _ Hp Hd Ha) as (_ & M2 & M3 & _). pose proof (stmt_prog _ _ _ _ Hp Hd Ha).
   eapply IH; [| | |exact H]; auto. lia.
 Qed.
 
@@ -1730,7 +1794,6 @@ Variable nested : scanner -> res (scanner * option Stmt).
 Hypothesis nested_safe : forall b, wf b -> pos b = 0 -> delim b <> [] ->
   safe (nested b) (fun r => wf (fst r) /\ src (fst r) = src b /\ pos (fst r) = 0 /\ delim (fst r) <> []).
 Hypothesis noGo : GoCommand o = false.
-Hypothesis noTry : MatchBeginTryCatch o = false.
 
 Definition same (s s' : scanner) : Prop := wf s' /\ src s' = src s /\ input s' = input s /\ pos s <= pos s'.
 
@@ -1847,11 +1910,51 @@ Proof.
 Qed.
 End NestedSafe.
 
+Section NestedSafeTC.
+Variable o : opts.
+Hypothesis noGo : GoCommand o = false.
+Variable nested : scanner -> res (scanner * option Stmt).
+Hypothesis nested_safe : forall b, wf b -> pos b = 0 -> delim b <> [] ->
+  safe (nested b) (fun r => wf (fst r) /\ src (fst r) = src b /\ pos (fst r) = 0 /\ delim (fst r) <> []).
+Hypothesis nested_mono : forall b b' r, pos b = 0 -> delim b <> [] -> nested b = Ok (b', r) ->
+  total b <= total b' /\ pos b' = 0 /\ delim b' <> [] /\
+  (forall st, r = Some st -> total b + zlen (Text st) <= total b').
+
+Lemma trycatch_loop_safe f : forall s body, wf s -> wf body -> pos body = 0 -> delim body <> [] ->
+  zlen (src body) <= zlen (input s) - pos s ->
+  safe (trycatch_loop nested f s body) (fun r => same s (fst r)).
+Proof.
+  induction f as [|f IH]; intros s body W Wb Hp Hd Hl; simpl; [exact I|].
+  pose proof (nested_safe body Wb Hp Hd) as Hn. pose proof W as (W1 & W2 & W3).
+  assert (same s s) as Hss by (unfold same; repeat split; auto; lia).
+  destruct (nested body) as [[body' [st|]]|e| |] eqn:En; simpl in Hn; try contradiction.
+  - destruct Hn as (Wb' & Sb' & Pb' & Db').
+    destruct (nested_mono _ _ _ Hp Hd En) as (_ & _ & _ & M4). specialize (M4 _ eq_refl).
+    pose proof Wb as (B1 & B2 & B3). pose proof Wb' as (C1 & C2 & C3). rewrite Sb' in *.
+    pose proof (zlen_nonneg (input body)). pose proof (zlen_nonneg (input body')).
+    destruct (re_end_catch (Text st)) as [n|].
+    + simpl.
+      pose proof (firstn_zlen_le (Text st) n). pose proof (zlen_nonneg (firstn n (Text st))).
+      destruct (has_suffix _ _); unfold same, wf, addPos; simpl; repeat split; lia.
+    + apply IH; auto. congruence.
+  - apply (nfail_safe s (pos s) EEofBody (same s)); auto.
+  - apply (nfail_safe s (pos s) EScanBody (same s)); auto.
+  - exact I.
+Qed.
+Lemma skipBeginTryCatch_safe f s : wf s -> 1 <= pos s ->
+  safe (skipBeginTryCatch nested f s) (fun r => same s (fst r)).
+Proof.
+  intros W Hp. unfold skipBeginTryCatch.
+  apply (block_safe o nested nested_safe noGo re_begin_try (trycatch_loop nested) false EMissingBeginTry); auto.
+  - intros t n E. split; [eapply re_begin_word_pos; exact E|eapply re_begin_word_len; exact E].
+  - intros. apply trycatch_loop_safe; auto.
+Qed.
+End NestedSafeTC.
+
 Section IterSafe.
 Variable o : opts.
 Variable nested : scanner -> res (scanner * option Stmt).
 Hypothesis noGo : GoCommand o = false.
-Hypothesis noTry : MatchBeginTryCatch o = false.
 
 (** how [depth] / [openingPos] evolve over one iteration *)
 Lemma stmt_iter_depth f s0 depth opos s1 d1 o1 :
@@ -1879,6 +1982,9 @@ Qed.
 
 Hypothesis nested_safe : forall b, wf b -> pos b = 0 -> delim b <> [] ->
   safe (nested b) (fun r => wf (fst r) /\ src (fst r) = src b /\ pos (fst r) = 0 /\ delim (fst r) <> []).
+Hypothesis nested_mono_s : forall b b' r, pos b = 0 -> delim b <> [] -> nested b = Ok (b', r) ->
+  total b <= total b' /\ pos b' = 0 /\ delim b' <> [] /\
+  (forall st, r = Some st -> total b + zlen (Text st) <= total b').
 
 Lemma wf_skipSpaces_id s : wf s -> starts_space (input s) = false -> wf (skipSpaces s).
 Proof.
@@ -1955,16 +2061,21 @@ Proof.
   eapply safe_bind with (P := fun _ => True).
   { destruct (_ && _); [|exact I]. eapply safe_bind; [apply slice_from_safe; lia|]. intros; exact I. }
   intros isAtomic _ _. destruct isAtomic.
-  { eapply safe_weaken; [apply (after_block_safe _ _ _ s); apply (skipBeginAtomic_safe o nested nested_safe noGo noTry); auto; lia|].
+  { eapply safe_weaken; [apply (after_block_safe _ _ _ s); apply (skipBeginAtomic_safe o nested nested_safe noGo); auto; lia|].
     intros [s1 d1 o1|s1 t|s1] _ Hsame; simpl in *; try contradiction;
       destruct Hsame as (U1 & U2 & _); (split; [exact U1|congruence]). }
-  rewrite noTry, andb_false_r. cbn [bind].
+  eapply safe_bind with (P := fun _ => True).
+  { destruct (_ && _); [|exact I]. eapply safe_bind; [apply slice_from_safe; lia|]. intros; exact I. }
+  intros isTry _ _. destruct isTry.
+  { eapply safe_weaken; [apply (after_block_safe _ _ _ s); apply (skipBeginTryCatch_safe o noGo nested nested_safe nested_mono_s); auto; lia|].
+    intros [s1 d1 o1|s1 t|s1] _ Hsame; simpl in *; try contradiction;
+      destruct Hsame as (U1 & U2 & _); (split; [exact U1|congruence]). }
   eapply safe_bind with (P := fun _ => True).
   { destruct (_ && _); [|exact I]. destruct (pos s =? 1).
     - eapply safe_bind; [apply slice_from_safe; lia|]. intros; exact I.
     - destruct (1 <? pos s) eqn:E; [|exact I]. bnorm. eapply safe_bind; [apply slice_from_safe; lia|]. intros; exact I. }
   intros isBegin _ _. destruct isBegin; [|simpl; auto].
-  eapply safe_weaken; [apply (after_block_safe _ _ _ s); apply (skipBegin_safe o nested nested_safe noGo noTry); auto; lia|].
+  eapply safe_weaken; [apply (after_block_safe _ _ _ s); apply (skipBegin_safe o nested nested_safe noGo); auto; lia|].
   intros [s1 d1 o1|s1 t|s1] _ Hsame; simpl in *; try contradiction;
     destruct Hsame as (U1 & U2 & _); (split; [exact U1|congruence]).
 Qed.
@@ -1974,7 +2085,6 @@ End IterSafe.
 Section StmtSafe.
 Variable o : opts.
 Hypothesis noGo : GoCommand o = false.
-Hypothesis noTry : MatchBeginTryCatch o = false.
 
 Definition SafeRes (s : scanner) (r : scanner * option Stmt) : Prop :=
   wf (fst r) /\ src (fst r) = src s /\ pos (fst r) = 0 /\ delim (fst r) <> [].
@@ -1982,7 +2092,8 @@ Definition SafeRes (s : scanner) (r : scanner * option Stmt) : Prop :=
 Section Loop.
 Variable nested : scanner -> res (scanner * option Stmt).
 Hypothesis nested_mono : forall b b' r, pos b = 0 -> delim b <> [] -> nested b = Ok (b', r) ->
-  total b <= total b' /\ pos b' = 0 /\ delim b' <> [].
+  total b <= total b' /\ pos b' = 0 /\ delim b' <> [] /\
+  (forall st, r = Some st -> total b + zlen (Text st) <= total b').
 Hypothesis nested_safe : forall b, wf b -> pos b = 0 -> delim b <> [] -> safe (nested b) (SafeRes b).
 
 Lemma stmt_loop_safe lf : forall s d op,
@@ -1991,11 +2102,11 @@ Lemma stmt_loop_safe lf : forall s d op,
 Proof.
   induction lf as [|lf IH]; intros s d op W Hns Hd Hd0 Hop; simpl; [exact I|].
   pose proof W as (W1 & W2 & W3).
-  eapply safe_bind; [apply (stmt_iter_safe o nested noGo noTry nested_safe lf s d op W Hns); intros; lia|].
+  eapply safe_bind; [apply (stmt_iter_safe o nested noGo nested_safe nested_mono lf s d op W Hns); intros; lia|].
   intros st Hst (Wst & Sst).
-  pose proof (stmt_iter_spec o nested nested_mono noGo noTry _ _ _ _ _ Hst Hns Hd) as Hit.
+  pose proof (stmt_iter_spec o nested nested_mono noGo _ _ _ _ _ Hst Hns Hd) as Hit.
   destruct st as [s1 d1 o1|s1 text|s1]; simpl in Wst, Sst.
-  - pose proof (stmt_iter_depth o nested noGo noTry _ _ _ _ _ _ _ Hst) as Hdep.
+  - pose proof (stmt_iter_depth o nested noGo _ _ _ _ _ _ _ Hst) as Hdep.
     assert (input s1 = input s /\ delim s1 = delim s /\ pos s < pos s1 \/
             starts_space (input s1) = false /\ delim s1 <> [] /\ pos s1 = 0 /\ pos s = 0) as Hcase.
     { destruct Hit as [[(A1 & A2 & _ & _) Hlt]|[(S1 & S2 & S3 & _) [Hp0 _]]]; [left; auto|right; auto]. }
@@ -2023,7 +2134,7 @@ Proof.
   destruct (trim_left_decomp (input s)) as (sp & Hsp & Hsp2 & Hsp3).
   eapply safe_weaken.
   - apply (stmt_loop_safe (stmt o f)).
-    + intros b b' r. apply (stmt_mono o noGo noTry).
+    + intros b b' r. apply (stmt_mono o noGo).
     + exact IH.
     + apply wf_skipSpaces; auto.
     + exact Hsp3.
